@@ -7,7 +7,10 @@ Mirrors, statement by statement,
                               PoissonScheduler, UnitAwareScheduler
   esrally/driver/driver.py    schedule_for, requires_time_period_schedule, ScheduleHandle,
                               TimePeriodBased, IterationBased, AsyncExecutor.__call__,
-                              execute_single, Sampler.add / Sampler.samples
+                              execute_single, Sampler.add / Sampler.samples (also interleaved with a
+                              concurrent reader, micro-step by micro-step)
+  esrally/client/context.py   RequestContextHolder.update_request_start/_end, on_request_start/_end,
+                              RequestContextManager.__enter__/__exit__ (nested contexts, exit by exception)
 
 Time is `Rat`.  Every arithmetic operation the code performs on floats goes through the rounding
 function `Cfg.r`: with `r = id` the model computes with exact rationals (what the property is
@@ -193,6 +196,7 @@ inductive Cause
   | unitMismatch    -- RallyAssertionError from UnitAwareScheduler.after_request
   | other           -- any other exception raised by the runner
   | zeroDivision    -- task.clients = 0 / vanishing target throughput
+  | noTimestamps    -- TypeError `None - None`: the request context was never stamped
 deriving Repr, DecidableEq
 
 def mkInner (r : Rat → Rat) (kind : SchedKind) (targetThroughput : Rat) : Except Cause Inner :=
@@ -344,13 +348,103 @@ def executeSingle (abort : Bool) (o : Outcome) : ExecResult :=
     if !m.success && (abort || fatal) then .raise .assertion
     else .ret ops unit m
 
+/-! ## request contexts (`esrally/client/context.py`) and what a runner does inside one logical request
+
+A logical request (one call of the runner) is a *program*: wire requests, possibly grouped in nested
+request contexts (`with es.new_request_context():` — what `composite` does per stream item through
+`RequestTiming`), any of which may fail.  A failing wire request raises; the exception leaves every open
+`with` block, whose `__exit__` still runs. -/
+
+/-- the dict of one request context -/
+structure RCtx where
+  start : Option Rat
+  stop : Option Rat
+deriving Repr, DecidableEq
+
+def RCtx.empty : RCtx := ⟨none, none⟩
+
+/-- `update_request_start(new)`: ignore `None`, keep the earliest -/
+def updStart (cur new : Option Rat) : Option Rat :=
+  match new with
+  | none => cur
+  | some n =>
+    match cur with
+    | none => some n
+    | some c => if n < c then some n else some c
+
+/-- `update_request_end(new)`: ignore `None`, keep the latest -/
+def updEnd (cur new : Option Rat) : Option Rat :=
+  match new with
+  | none => cur
+  | some n =>
+    match cur with
+    | none => some n
+    | some c => if n > c then some n else some c
+
+/-- `on_request_start()` / `on_request_end()` at clock `t` -/
+def RCtx.onStart (x : RCtx) (t : Rat) : RCtx := { x with start := updStart x.start (some t) }
+def RCtx.onEnd (x : RCtx) (t : Rat) : RCtx := { x with stop := updEnd x.stop (some t) }
+
+/-- `RequestContextManager.__exit__` of a nested context: propagate start and end to the parent
+    (on every exit, also when the block is left by an exception) -/
+def RCtx.exitInto (child parent : RCtx) : RCtx :=
+  ⟨updStart parent.start child.start, updEnd parent.stop child.stop⟩
+
+inductive Tok
+  | enter                                        -- `with es.new_request_context():`
+  | exit                                         -- end of that block
+  | wire (gap service : Rat) (fails : Bool)      -- client-side work of `gap` s, then a wire request of `service` s
+deriving Repr, DecidableEq
+
+structure PState where
+  now : Rat
+  stack : List RCtx            -- open request contexts, innermost first; the last one is the executor's
+  log : List (Rat × Rat)       -- the endpoint's request log: (sent, received)
+  failed : Bool
+deriving Repr
+
+def onTop (f : RCtx → RCtx) : List RCtx → List RCtx
+  | c :: rest => f c :: rest
+  | [] => []
+
+/-- leave all open nested contexts (normal end of balanced blocks, or an exception passing through them) -/
+def unwindInto (c : RCtx) : List RCtx → RCtx
+  | [] => c
+  | p :: rest => unwindInto (c.exitInto p) rest
+
+def unwind : List RCtx → RCtx
+  | [] => RCtx.empty
+  | c :: rest => unwindInto c rest
+
+/-- `await asyncio.sleep(d)` / synchronous work of `d` seconds on the virtual clock -/
+def sleep (r : Rat → Rat) (now d : Rat) : Rat := if d > 0 then r (now + d) else now
+
+def runProg (r : Rat → Rat) : List Tok → PState → PState
+  | [], s => s
+  | .enter :: ts, s => runProg r ts { s with stack := RCtx.empty :: s.stack }
+  | .exit :: ts, s =>
+    match s.stack with
+    | c :: p :: rest => runProg r ts { s with stack := c.exitInto p :: rest }
+    | _ => runProg r ts s
+  | .wire gap service fails :: ts, s =>
+    let t1 := sleep r s.now gap
+    let t2 := sleep r t1 service
+    let s' : PState := { now := t2, stack := onTop (fun c => (c.onStart t1).onEnd t2) s.stack, log := s.log ++ [(t1, t2)], failed := fails }
+    if fails then s' else runProg r ts s'
+
+/-- nesting is balanced (what Python's `with` guarantees) -/
+def balanced : List Tok → Nat → Bool
+  | [], d => d == 0
+  | .enter :: ts, d => balanced ts (d + 1)
+  | .exit :: ts, d => d != 0 && balanced ts (d - 1)
+  | .wire _ _ _ :: ts, d => balanced ts d
+
 /-! ## the executor -/
 
 structure Req where
   gen : Rat            -- time spent in `params()`
-  pre : Rat            -- runner time before the request goes on the wire
-  service : Rat        -- wire time
-  post : Rat           -- runner time after the response arrived
+  prog : List Tok      -- what the runner does: wire requests in (nested) request contexts
+  post : Rat           -- runner time after the last response arrived (not spent when a wire request failed)
   draw : Rat           -- what `random.expovariate` returns when this request is scheduled
   out : Outcome
   rc : Option Bool     -- runner.completed after the call
@@ -414,15 +508,13 @@ structure Rec where
   procEnd : Rat
   completed : Bool
   innerAfter : Inner           -- scheduler in force after this request's feedback
+  wires : List (Rat × Rat)     -- the endpoint's log of this logical request: (sent, received) per wire request
   sample : Sample
 deriving Repr
 
-/-- `await asyncio.sleep(d)` / synchronous work of `d` seconds on the virtual clock -/
-def sleep (r : Rat → Rat) (now d : Rat) : Rat := if d > 0 then r (now + d) else now
-
 inductive StepOut
   | cancelled (tup : Tuple) (now : Rat)
-  | raised (cause : Cause) (tup : Tuple) (wire : Rat × Rat) (now : Rat)
+  | raised (cause : Cause) (tup : Tuple) (wire : List (Rat × Rat)) (now : Rat)
   | sampled (rec : Rec) (st' : St)
 
 def isSet (ev : Option Nat) (idx : Nat) : Bool :=
@@ -461,10 +553,21 @@ def procStartOf (c : Cfg) (st : St) (q : Req) : Rat :=
     if rest > 0 then c.r (now1 + rest) else now1
   else now1
 
-/-- `request_context.request_start` / `request_end` / `processing_end = time.perf_counter()` -/
-def reqStartOf (c : Cfg) (st : St) (q : Req) : Rat := sleep c.r (procStartOf c st q) q.pre
-def reqEndOf (c : Cfg) (st : St) (q : Req) : Rat := sleep c.r (reqStartOf c st q) q.service
-def procEndOf (c : Cfg) (st : St) (q : Req) : Rat := sleep c.r (reqEndOf c st q) q.post
+/-- the runner call inside `with self.es["default"].new_request_context() as request_context:` -/
+def progOf (c : Cfg) (st : St) (q : Req) : PState :=
+  runProg c.r q.prog { now := procStartOf c st q, stack := [RCtx.empty], log := [], failed := false }
+
+/-- the executor's request context when the runner has returned or raised -/
+def reqCtxOf (c : Cfg) (st : St) (q : Req) : RCtx := unwind (progOf c st q).stack
+
+/-- both `request_context.request_start` and `request_end` are set -/
+def hasStamps (c : Cfg) (st : St) (q : Req) : Bool := (reqCtxOf c st q).start.isSome && (reqCtxOf c st q).stop.isSome
+
+/-- `request_context.request_start` / `request_end` (only used when set) / `processing_end = time.perf_counter()` -/
+def reqStartOf (c : Cfg) (st : St) (q : Req) : Rat := (reqCtxOf c st q).start.getD (procStartOf c st q)
+def reqEndOf (c : Cfg) (st : St) (q : Req) : Rat := (reqCtxOf c st q).stop.getD (progOf c st q).now
+def procEndOf (c : Cfg) (st : St) (q : Req) : Rat :=
+  if (progOf c st q).failed then (progOf c st q).now else sleep c.r (progOf c st q).now q.post
 
 /-- `completed = runner.completed` / `self.complete.is_set() or runner.completed` -/
 def completedOf (c : Cfg) (st : St) (q : Req) : Bool :=
@@ -501,7 +604,8 @@ def sampleOf (c : Cfg) (st : St) (q : Req) (ops : Nat) (unit : Str) (m : Meta) :
 def recOf (c : Cfg) (st : St) (q : Req) (ops : Nat) (unit : Str) (m : Meta) (sched' : Sched) : Rec :=
   { idx := st.idx, tup := tupleOf c st q, throttled := throttledOf c st q, procStart := procStartOf c st q,
     reqStart := reqStartOf c st q, reqEnd := reqEndOf c st q, procEnd := procEndOf c st q,
-    completed := completedOf c st q, innerAfter := sched'.inner, sample := sampleOf c st q ops unit m }
+    completed := completedOf c st q, innerAfter := sched'.inner, wires := (progOf c st q).log,
+    sample := sampleOf c st q ops unit m }
 
 /-- state when the generator is resumed: `task_progress_control.next()` reads the clock at `processing_end` -/
 def nextSt (c : Cfg) (st : St) (q : Req) (sched' : Sched) : St :=
@@ -512,10 +616,13 @@ def step (c : Cfg) (st : St) (q : Req) : StepOut :=
   if isSet c.cancelAt st.idx then .cancelled (tupleOf c st q) (genDone c st q)      -- `if self.cancel.is_set(): break`
   else
     match executeSingle c.abort q.out with
-    | .raise cause => .raised cause (tupleOf c st q) (reqStartOf c st q, reqEndOf c st q) (procEndOf c st q)
+    | .raise cause => .raised cause (tupleOf c st q) (progOf c st q).log (procEndOf c st q)
     | .ret ops unit m =>
+      -- `service_time = request_end - request_start`: a TypeError when no wire request stamped the context
+      if !hasStamps c st q then .raised .noTimestamps (tupleOf c st q) (progOf c st q).log (procEndOf c st q)
+      else
       match st.sched.afterRequest c.r c.clients ops unit with        -- schedule_handle.after_request(...)
-      | .error cause => .raised cause (tupleOf c st q) (reqStartOf c st q, reqEndOf c st q) (procEndOf c st q)
+      | .error cause => .raised cause (tupleOf c st q) (progOf c st q).log (procEndOf c st q)
       | .ok sched' => .sampled (recOf c st q ops unit m sched') (nextSt c st q sched')
 
 inductive Stop
@@ -529,7 +636,7 @@ deriving Repr, DecidableEq
 structure Out where
   recs : List Rec              -- one per call of Sampler.add
   tuples : List Tuple          -- everything the schedule yielded
-  wire : List (Rat × Rat)      -- every request that reached the endpoint (start, end)
+  wire : List (List (Rat × Rat))  -- per runner call, the requests that reached the endpoint (sent, received)
   rates : List Rat             -- arguments of random.expovariate
   stop : Stop
   endClock : Rat
@@ -552,11 +659,11 @@ def go (c : Cfg) : List Req → St → Out
         { recs := [], tuples := [tup], wire := [w], rates := st.sched.rateLog, stop := .raised cause, endClock := now }
       | .sampled rec st' =>
         if rec.completed then
-          { recs := [rec], tuples := [rec.tup], wire := [(rec.reqStart, rec.reqEnd)], rates := st.sched.rateLog,
+          { recs := [rec], tuples := [rec.tup], wire := [rec.wires], rates := st.sched.rateLog,
             stop := .completed, endClock := st'.now }
         else
           let o := go c qs st'
-          { recs := rec :: o.recs, tuples := rec.tup :: o.tuples, wire := (rec.reqStart, rec.reqEnd) :: o.wire,
+          { recs := rec :: o.recs, tuples := rec.tup :: o.tuples, wire := rec.wires :: o.wire,
             rates := st.sched.rateLog ++ o.rates, stop := o.stop, endClock := o.endClock }
 
 /-- `Sampler.add`: `put_nowait` on a bounded queue, dropping when full -/
@@ -565,6 +672,47 @@ def samplerAdd (cap : Nat) (queue : List Sample) (s : Sample) : List Sample :=
 
 /-- all `Sampler.add` calls of a run followed by one `Sampler.samples` -/
 def drain (cap : Nat) (ss : List Sample) : List Sample := ss.foldl (samplerAdd cap) []
+
+/-! ## `Sampler` with a concurrent reader
+
+`Sampler.add` runs on the load generator's thread, `Sampler.samples` on the worker actor's thread.
+`add` is `self.q.put_nowait(Sample(...))`: three atomic micro-steps — evaluate the bound method of the queue
+`self.q` is bound to, build the `Sample`, call (the put itself is atomic under the queue's mutex).  The other
+thread's drain can run between any two of them.  Queue objects are kept in a heap so that "which queue object"
+is part of the state; the current code binds `self.q` once. -/
+
+inductive SEv (α : Type)
+  | evalPut            -- executor thread: evaluate `self.q.put_nowait`
+  | build              -- executor thread: `Sample(...)`
+  | call (s : α)       -- executor thread: the call `put_nowait(sample)`: append, or `queue.Full` → warning, sample dropped
+  | drain              -- worker thread: `Sampler.samples` (`get_nowait` until `queue.Empty`) while the executor thread is paused
+
+structure SState (α : Type) where
+  queues : List (List α)       -- every `queue.Queue` object the sampler has created
+  cur : Nat                    -- the one `self.q` is bound to
+  ref : Nat                    -- the one whose `put_nowait` the executor thread has evaluated
+  batches : List (List α)      -- what the drains returned, in order
+  dropped : List α             -- samples for which the "Dropping sample" warning was logged
+
+def SState.init (α : Type) : SState α := { queues := [[]], cur := 0, ref := 0, batches := [], dropped := [] }
+
+def sstep {α : Type} (cap : Nat) (st : SState α) : SEv α → SState α
+  | .evalPut => { st with ref := st.cur }
+  | .build => st
+  | .call s =>
+    if (st.queues.getD st.ref []).length < cap then { st with queues := st.queues.set st.ref (st.queues.getD st.ref [] ++ [s]) }
+    else { st with dropped := st.dropped ++ [s] }
+  | .drain => { st with batches := st.batches ++ [st.queues.getD st.cur []], queues := st.queues.set st.cur [] }
+
+def srun {α : Type} (cap : Nat) : List (SEv α) → SState α → SState α
+  | [], st => st
+  | e :: es, st => srun cap es (sstep cap st e)
+
+/-- the samples handed to `put_nowait`, in order -/
+def calls {α : Type} : List (SEv α) → List α
+  | [] => []
+  | .call s :: es => s :: calls es
+  | _ :: es => calls es
 
 /-- `ScheduleHandle.ramp_up_wait_time` -/
 def rampUpWait (r : Rat → Rat) (rampUp : Option Rat) (globalIdx total : Nat) : Except Err Rat :=
